@@ -240,8 +240,8 @@ def rule_c(ctx):
             tabs[side] = tab
     want = {"darsia.Coordinate": "darsia.CoordinateArray", "darsia.Voxel": "darsia.VoxelArray", "darsia.VoxelCenter": "darsia.VoxelCenterArray", "np.ndarray": "np.ndarray", "__raise__": True}
     ctx.ob(R, sd.qname, "input and output tables are identical and map each point class to its Array class", tabs.get("input") == want and tabs.get("output") == want, str(tabs), sd.node)
-    src = [norm(s.value) for s in sd.node.body if isinstance(s, ast.Assign) and self_attr(s.targets[0]) in ("input_dtype", "output_dtype")]
-    ctx.ob(R, sd.qname, "point types are taken from the first source / destination point", src == [f"type({sd.params[1]}[0])", f"type({sd.params[2]}[0])"], str(src), sd.node)
+    src = {self_attr(s.targets[0]): norm(s.value) for s in sd.node.body if isinstance(s, ast.Assign) and self_attr(s.targets[0]) in ("input_dtype", "output_dtype")}
+    ctx.ob(R, sd.qname, "point types are taken from the first source / destination point", src == {"input_dtype": f"type({sd.params[1]}[0])", "output_dtype": f"type({sd.params[2]}[0])"}, str(src), sd.node)
     ctx.floor(R, 2)
 
 
